@@ -17,6 +17,7 @@ open IrVerif.Passes
 #print axioms IrVerif.Inline.C05_inline_partial
 #print axioms IrVerif.Inline.C05_inline_nested_partial
 #print axioms IrVerif.Inline.C05_inline
+#print axioms IrVerif.Inline.C05_inline_total
 #print axioms IrVerif.Inline.C05_coherent
 #print axioms IrVerif.Inline.C05_coherent_lift
 #print axioms IrVerif.Inline.C05_call_depth
